@@ -26,6 +26,7 @@ VERIF = os.path.dirname(os.path.abspath(__file__))
 VENV = os.path.join(VERIF, '.venv')
 VPY = os.path.join(VENV, 'bin', 'python')
 REPO = os.environ.get('VERIF_REPO', '/repo')
+OUT = os.environ.get('VERIF_OUT') or os.path.dirname(os.path.abspath(__file__))   # evidence/, replays/ (own experiments may redirect them)
 WHEELS = '/opt/veriftools/wheels'
 GUARD = 'SCOTT_GRIFFITHS_BITSTRING_VERIF'
 
@@ -216,21 +217,31 @@ def cmd_check(prop, tier, jobs, only, seed):
         conds = [c for c in conds if fnmatch.fnmatch(c.id, only)]
     for c in conds:
         c.known = [k for k in findings if fnmatch.fnmatch(c.id, k.cond_glob)]
-    print(f"  {len(conds)} conditions, {jobs} workers")
+    if os.environ.get('VERIF_NO_TWINS') != '1':
+        conds = conds + [engine.make_twin(c) for c in conds if c.direct is None and not c.twin]
+    print(f"  {sum(1 for c in conds if not c.twin)} conditions (+{sum(1 for c in conds if c.twin)} reachability twins), {jobs} workers")
     results = engine.run_pool(conds, seed, jobs)
 
     # (d) verdicts
     violations, harness_errors, inconclusive, confirmed = [], [], [], []
-    twins_ok = twins_bad = 0
-    os.makedirs(os.path.join(VERIF, 'replays', prop), exist_ok=True)
+    twins_ok = twins_bad = twins_na = 0
+    os.makedirs(os.path.join(OUT, 'replays', prop), exist_ok=True)
+    status_of = {c.id: r['status'] for c, r in zip(conds, results)}
+    twin_replays = []
     for c, r in zip(conds, results):
         st = r['status']
         if c.twin:
+            main_st = status_of.get(c.id[:-len('#reach')])
             if st == 'refuted':
                 twins_ok += 1
-            else:
+                f = r.get('failure') or {}
+                if f.get('inputs') is not None and not c.known:      # (a known-finding call site legitimately fails on the real code)
+                    twin_replays.append((c, r, f))
+            elif main_st in ('confirmed', None):
                 twins_bad += 1
-                harness_errors.append((c, r, f"reachability twin not refuted (status {st})"))
+                harness_errors.append((c, r, f"reachability twin not refuted (status {st}) although the condition is reported as holding"))
+            else:
+                twins_na += 1       # the condition itself is refuted/inconclusive: reported there
             continue
         if st == 'confirmed':
             confirmed.append((c, r))
@@ -244,9 +255,9 @@ def cmd_check(prop, tier, jobs, only, seed):
             h = hashlib.sha256(json.dumps([c.id, f['inputs']], sort_keys=True).encode()).hexdigest()[:10]
             safe = ''.join(ch if ch.isalnum() or ch in '-_.' else '_' for ch in c.id)
             rpath = os.path.join('replays', prop, f"{safe}-{h}.json")
-            with open(os.path.join(VERIF, rpath), 'w') as fh:
+            with open(os.path.join(OUT, rpath), 'w') as fh:
                 json.dump(rec, fh, indent=1)
-            rc, o = replay_subprocess(os.path.join(VERIF, rpath))
+            rc, o = replay_subprocess(os.path.join(OUT, rpath))
             if rc == 1:
                 violations.append((c, r, rpath, o))
             else:
@@ -257,6 +268,34 @@ def cmd_check(prop, tier, jobs, only, seed):
             harness_errors.append((c, r, f"{st}: {f.get('what')} ...{tbk}"))
         else:
             inconclusive.append((c, r))
+
+    # (d2) twin witnesses are replayed on the real code: the real harness must run to its end and hold there
+    step = max(1, len(twin_replays) // (64 if tier == 'quick' else 200))
+    chosen = twin_replays[::step]
+    os.makedirs(os.path.join(OUT, 'replays', prop, 'twins'), exist_ok=True)
+
+    def _twin_replay(item):
+        c, r, f = item
+        cid = c.id[:-len('#reach')]
+        rec = {'property': prop, 'cond': cid, 'tier': tier, 'bounds': c.bounds, 'params': {k: v for k, v in c.params.items() if isinstance(v, (int, str, bool, float, type(None)))},
+               'inputs': f['inputs'], 'what': 'reachability twin witness (expected to hold on the real code)'}
+        safe = ''.join(ch if ch.isalnum() or ch in '-_.' else '_' for ch in cid)[:120]
+        h = hashlib.sha256(cid.encode()).hexdigest()[:8]
+        rp = os.path.join(OUT, 'replays', prop, 'twins', f"{safe}-{h}.json")
+        with open(rp, 'w') as fh:
+            json.dump(rec, fh, indent=1)
+        rc, o = replay_subprocess(rp)
+        return c, r, rc, o, rp
+    twin_replayed = 0
+    if chosen:
+        from concurrent.futures import ThreadPoolExecutor
+        with ThreadPoolExecutor(max_workers=jobs) as ex:
+            for c, r, rc, o, rp in ex.map(_twin_replay, chosen):
+                twin_replayed += 1
+                if rc != 0:
+                    harness_errors.append((c, r, f"twin witness (a path the symbolic run reports as holding) does not hold/run on the real code (replay rc={rc}): {rp}\n{o[-600:]}"))
+                else:
+                    os.remove(rp)
 
     # (e) evidence
     tot_paths = sum(r.get('paths', 0) for r in results)
@@ -301,7 +340,8 @@ def cmd_check(prop, tier, jobs, only, seed):
             'functions_encoded': src_hashes(alldrives),
             'solver_queries': {k: (round(v, 2) if isinstance(v, float) else v) for k, v in sq.items()},
             'solver_time_s': round(sq['time'], 2),
-            'reachability_twins': {'refuted_as_required': twins_ok, 'not_refuted': twins_bad},
+            'reachability_twins': {'refuted_as_required': twins_ok, 'not_refuted': twins_bad, 'not_applicable_condition_not_holding': twins_na,
+                                   'witnesses_replayed_on_real_code_and_holding': twin_replayed - sum(1 for c, r, w in harness_errors if c.twin and 'twin witness' in w)},
             'model_validation': model_line,
             'known_findings': known_report,
             'known_finding_hits_during_exploration': known_hits,
@@ -313,8 +353,8 @@ def cmd_check(prop, tier, jobs, only, seed):
         'wall_s': round(time.time() - t0, 2),
         'violations': len(violations),
     }
-    os.makedirs(os.path.join(VERIF, 'evidence'), exist_ok=True)
-    with open(os.path.join(VERIF, 'evidence', f'{prop}.json'), 'w') as fh:
+    os.makedirs(os.path.join(OUT, 'evidence'), exist_ok=True)
+    with open(os.path.join(OUT, 'evidence', f'{prop}.json'), 'w') as fh:
         json.dump(ev, fh, indent=1)
 
     # (f) report
@@ -326,10 +366,10 @@ def cmd_check(prop, tier, jobs, only, seed):
         print(f"HARNESS-ERROR property={prop} condition={c.id}: {why}")
     for c, r, rp, o in violations:
         print(o.rstrip())
-        print(f"VIOLATION property={prop} replay={os.path.join(VERIF, rp)}")
+        print(f"VIOLATION property={prop} replay={os.path.join(OUT, rp)}")
     try:
         import shutil
-        shutil.rmtree(os.path.join(VERIF, '.work'), ignore_errors=True)
+        shutil.rmtree(engine.WORK, ignore_errors=True)
     except Exception:  # noqa: BLE001
         pass
     if violations:
